@@ -235,7 +235,10 @@ def shape_uniform_list(st, o, field, n, classes_only=False):
     r_i = core.Ref.Old(own, fid, core.KInt(i))
     r_0 = core.Ref.Old(own, fid, core.KInt(z3.IntVal(0)))
     if classes_only:
-        body = core.cname(core.SH(core.V0(r_i))) == core.cname(core.SH(core.V0(r_0)))
+        body = z3.And(
+            core.cname(core.SH(core.V0(r_i))) == core.cname(core.SH(core.V0(r_0))),
+            core.bagrange(core.SH(core.V0(r_i))) == core.bagrange(core.SH(core.V0(r_0))),
+        )
     else:
         body = core.SH(core.V0(r_i)) == core.SH(core.V0(r_0))
     st.forall(i, z3.And(i >= 0, i < n), body, name=f"wf-uniform-{field}")
@@ -251,7 +254,7 @@ def shape_uniform_dict(st, o, field, dom, f, classes_only=False):
     else:
         sh = z3.Const(f"shape.{field}{o}", core.Shape)
     if classes_only:
-        body = core.cname(core.SH(core.V0(r_k))) == core.cname(sh)
+        body = z3.And(core.cname(core.SH(core.V0(r_k))) == core.cname(sh), core.bagrange(core.SH(core.V0(r_k))) == core.bagrange(sh))
     else:
         body = core.SH(core.V0(r_k)) == sh
     st.forall(k, dom(k), body, name=f"wf-uniform-{field}")
